@@ -114,8 +114,11 @@ def check_move(eng, base, info, dest, marker, oc):
             probs.append(("source differs from original minus exactly the note's lines", trig))
         nb = lambda t: [l for l in t.split("\n") if l.strip()]
         a, b = nb(impl_dst), nb(dst_before)
-        note_lines = [l for l in a if l not in b] if len(a) >= len(b) else None
-        kept = [l for l in a if l in b]
+        # the destination is its old non-blank lines with one contiguous block inserted
+        m = len(a) - len(b)
+        cut = next((i for i in range(len(b) + 1) if a[:i] + a[i + m:] == b), None) if m >= 0 else None
+        note_lines = a[cut:cut + m] if cut is not None else None
+        kept = b if cut is not None else None
         if dst_before and not dst_before.endswith("\n") and (note_lines is None or kept != b):
             probs.append(("destination lost lines", "dest_no_trailing_newline"))
         elif note_lines is None or kept != b:
